@@ -141,7 +141,7 @@ variables cur = NoReq;
             with (S = IF StopAllGuarded THEN {i \in watch : state[i] = "enqueued"} ELSE watch) {
                 result := [i \in Req |-> IF i \in S THEN "timeout" ELSE result[i]];
                 state := [i \in Req |-> IF i \in S THEN "processed" ELSE state[i]];
-                if (\E i \in S : wg[i] <= 0) { emit([ev |-> "crash"]); };
+                if (\E i \in S : wg[i] <= 0) { emit([ev |-> "crash"]); } else { emit(Ev("drain")); };
                 wg := [i \in Req |-> IF i \in S THEN wg[i] - 1 ELSE wg[i]];
             };
         };
@@ -344,8 +344,8 @@ Tick == /\ pc["loop"] = "Tick"
                                    /\ IF \E i \in S : wg[i] <= 0
                                          THEN /\ /\ ps' = P!Step(ps, ([ev |-> "crash"]))
                                                  /\ viol' = P!Viol(ps, ([ev |-> "crash"]))
-                                         ELSE /\ TRUE
-                                              /\ UNCHANGED << ps, viol >>
+                                         ELSE /\ /\ ps' = P!Step(ps, (Ev("drain")))
+                                                 /\ viol' = P!Viol(ps, (Ev("drain")))
                                    /\ wg' = [i \in Req |-> IF i \in S THEN wg[i] - 1 ELSE wg[i]]
                          ELSE /\ TRUE
                               /\ UNCHANGED << state, result, wg, ps, viol >>
